@@ -197,6 +197,11 @@ def regex_driver(name):
                                                 else getattr(re, name)("A", s, flags=re.I)) for s in vals]
                     run.check([vals, pat], all((_missing(g) and e is None) or _same_re(g, e) for g, e in zip(gi, ei)), expected=[repr(e) for e in ei],
                               got=[repr(g) for g in gi], clause=f"regex.{name}: flags are passed on")
+                    # ... and only to that call: the same pattern without flags afterwards is case-sensitive again
+                    g0 = call("A", x)
+                    e0 = [None if s == "" else (re.sub("A", "X", s) if name == "sub" else re.subn("A", "X", s) if name == "subn" else getattr(re, name)("A", s)) for s in vals]
+                    run.check([vals, pat], all((_missing(g) and e is None) or _same_re(g, e) for g, e in zip(g0, e0)), expected=[repr(e) for e in e0],
+                              got=[repr(g) for g in g0], clause=f"regex.{name}: flags of an earlier call with the same pattern do not stick")
             except Exception as e:
                 run.check([vals, pat], False, expected="a vector", got=f"raised {type(e).__name__}: {e}", clause=f"regex.{name} answers")
     return _d
